@@ -399,6 +399,7 @@ fn run_chunk<V: Variant, W: Variant>(seed: u64, run: u64, key_index: usize, chun
     }
     st.steps += sched.steps;
     st.add("sched.switches", sched.switches);
+    st.add("sched.lock_handoffs", sched.lock_handoffs);
     if sched.switches > 0 {
         st.interleavings.insert(sched.trace_hash);
     }
